@@ -1,8 +1,10 @@
 // unit int_add: integer/src/add.rs slice kernels (C01, C13, C16, C19)
 #![allow(unused_imports, unused_variables, dead_code, non_snake_case, unused_mut, unused_parens, unused_braces)]
 use vstd::prelude::*;
+use core::cmp::Ordering::*;
 verus! {
 //@@ INCLUDE lib/prelude.rs
+//@@ INCLUDE lib/sign.rs
 //@@ INCLUDE lib/add_lemmas.rs
 pub mod arch { pub mod add {
 use super::super::*;
@@ -22,5 +24,6 @@ use arch::add::{add_with_carry, sub_with_borrow};
 //@@ FN integer/add/sub_same_len_in_place_swap.rs
 //@@ FN integer/add/add_in_place.rs
 //@@ FN integer/add/sub_in_place.rs
+//@@ FN integer/add/sub_in_place_with_sign.rs
 } // verus!
 fn main() {}
